@@ -86,6 +86,9 @@ func runC05(ctx *vh.Ctx) error {
 		return err
 	}
 	n := ctx.N(6000, 60000)
+	if !c05FamilyOn("main") {
+		n = 0
+	}
 	for i := 0; i < n && ctx.TimeLeft(); i++ {
 		c := c05Gen(ctx, i)
 		c.CfgInitialChecked = &other
